@@ -438,6 +438,7 @@ def main(tier, seed):
 
     def real_part():
         real["res"] = run_shards("checks.c01_real", "shard_real", [{"tier": tier, "seed": seed, "pairs": 8}], timeout=3000 if tier == "thorough" else 900, workers=1)
+        real["res"] += run_shards("checks.c20_real", "shard_real", [{"tier": tier, "seed": seed, "pairs": 4, "parts": ["transfers"]}], timeout=3000 if tier == "thorough" else 900, workers=1)
 
     th = threading.Thread(target=real_part)
     th.start()
